@@ -89,6 +89,8 @@ def run(ctx: Context) -> None:
     ctx.rule('R03.5', "the linear dimension is chosen by axis, else by name, else the last dimension", floor=1)
     ctx.rule('R03.6', "an automatically chosen dimension name is never one that already exists", floor=2)
     ctx.rule('R03.7', "no other refusal: wind_dimension, ravel_dimensions and splice_tuple never raise on their own; move_dimensions_to_end and get_grid_kind raise only as stated (winding arbitrary linear data always succeeds)", floor=5)
+    from .common import adopt_foundations as _adopt
+    _adopt(ctx, 'R03.8', ['topology'], floor=30)
     ctx.assume("numpy reshape in C order merges/splits trailing axes row-major; xarray transpose only permutes axes")
 
     for q, allowed in ((f"{UTILS}.wind_dimension", 0), (f"{UTILS}.ravel_dimensions", 0), (f"{UTILS}.splice_tuple", 0),
